@@ -448,6 +448,7 @@ func (p *parseVisitor) VisitSaveFromAccount(c *parser2.SaveFromAccountContext) *
 		}
 	}
 	p.PushAddress(*addr)
+	monAddr := addr
 
 	typ, addr, compErr = p.VisitExpr(c.GetAcc(), false)
 	if compErr != nil {
@@ -458,6 +459,9 @@ func (p *parseVisitor) VisitSaveFromAccount(c *parser2.SaveFromAccountContext) *
 			"save monetary from account: the second expression should be of type 'account' instead of '%s'", typ))
 	}
 	p.PushAddress(*addr)
+	// the VM updates the account's balance entry: make sure it is loaded even when the
+	// account is not a source of any send
+	p.setNeededBalances(map[machine.Address]struct{}{*addr: {}}, monAddr)
 
 	p.AppendInstruction(program2.OP_SAVE)
 
